@@ -11,6 +11,11 @@ impl Ipv4Addr {
 impl Ipv6Addr {
     pub fn from(b: [u8; 16]) -> (r: Self) ensures r.o@ == b@ { Ipv6Addr { o: b } }
     pub fn octets(&self) -> (r: [u8; 16]) ensures r@ == self.o@ { self.o }
+    // conversions to IPv4: which addresses convert, and to what, is left uninterpreted (no contract relies on them)
+    #[verifier::external_body] pub fn to_ipv4(&self) -> (r: Option<Ipv4Addr>) { unimplemented!() }
+    #[verifier::external_body] pub fn to_ipv4_mapped(&self) -> (r: Option<Ipv4Addr>) { unimplemented!() }
+    #[verifier::external_body] pub fn is_loopback(&self) -> (r: bool) { unimplemented!() }
+    #[verifier::external_body] pub fn is_unspecified(&self) -> (r: bool) { unimplemented!() }
 }
 pub enum IpAddr { V4(Ipv4Addr), V6(Ipv6Addr) }
 pub open spec fn ip_display(ip: IpAddr) -> Seq<char> { match ip { IpAddr::V4(a) => ip4_display(a.o@), IpAddr::V6(a) => ip6_display(a.o@) } }
@@ -26,3 +31,9 @@ pub uninterp spec fn utf8_decode(b: Seq<u8>) -> Seq<char>;
 pub struct ExFromUtf8Error(std::string::FromUtf8Error);
 pub assume_specification[String::from_utf8](v: Vec<u8>) -> (r: std::result::Result<String, std::string::FromUtf8Error>)
     ensures r is Ok <==> valid_utf8(v@), r is Ok ==> r->Ok_0@ == utf8_decode(v@);
+pub uninterp spec fn utf8_encode(s: Seq<char>) -> Seq<u8>;
+// a String's bytes are valid UTF-8 and decode to the string (String invariant); a non-empty string has a non-empty encoding
+pub broadcast axiom fn axiom_utf8_roundtrip(s: Seq<char>)
+    ensures #[trigger] valid_utf8(utf8_encode(s)), utf8_decode(utf8_encode(s)) == s;
+pub broadcast axiom fn axiom_utf8_nonempty(s: Seq<char>)
+    ensures s.len() > 0 ==> (#[trigger] utf8_encode(s)).len() > 0;
